@@ -152,6 +152,63 @@ Theorem C05_min_gen_set_option_is_sound_for_walks :
 Proof. exact min_gen_set_option_is_sound_walks. Qed.
 Print Assumptions C05_min_gen_set_option_is_sound_for_walks.
 
+(* END TO END from the caller's input (EndToEndBounds.v over EndToEnd3 / LowerBounds / SubgraphBound): MinFlowDecomp's search returns
+   the minimum from ANY valid lower bound, the lower-bound options therefore cannot change the result, and the bounds the code
+   computes -- ceil(log2(#distinct values)) and the optimum of any scanning window -- are valid *)
+From FP Require Import Aug Search EndToEnd1 EndToEnd2 EndToEnd3 SubgraphBound EndToEndBounds.
+From FP Require Peel PeelProofs1.
+Theorem C05_lower_bound_choice_is_immaterial :
+  forall (V : list node) (E : list edge) (s t : node) (f : edge -> Z) (Pa Sa : list (node * list node)) (topo : list node),
+  NoDup V -> (forall e, In e E -> In (fst e) V /\ In (snd e) V) -> ~ In s V -> ~ In t V -> s <> t ->
+  Peel.peel_inputs_ok E Pa Sa topo = true -> PeelProofs1.nonneg E f -> PeelProofs1.conserving E f ->
+  forall (feasible : nat -> bool) (lb lb' : nat) (sts sts' : list raw),
+  (forall k, feasible k = true <-> exists a, sat a (encode_kfd (e2e_inst V E s t f k))) ->
+  (forall i, (i < S (length E) - lb)%nat -> exists x, nth_error sts i = Some x /\
+             status_of x = if feasible (lb + i)%nat then Optimal else Infeasible) ->
+  (forall i, (i < S (length E) - lb')%nat -> exists x, nth_error sts' i = Some x /\
+             status_of x = if feasible (lb' + i)%nat then Optimal else Infeasible) ->
+  valid_lb V E s t f lb -> valid_lb V E s t f lb' ->
+  so_res (mpc_solve true lb (S (length E)) sts) = so_res (mpc_solve true lb' (S (length E)) sts').
+Proof. exact lower_bound_choice_is_immaterial. Qed.
+Print Assumptions C05_lower_bound_choice_is_immaterial.
+
+Theorem C05_minflowdecomp_returns_the_minimum_from_any_valid_lower_bound :
+  forall (V : list node) (E : list edge) (s t : node) (f : edge -> Z) (Pa Sa : list (node * list node)) (topo : list node),
+  NoDup V -> (forall e, In e E -> In (fst e) V /\ In (snd e) V) -> ~ In s V -> ~ In t V -> s <> t ->
+  Peel.peel_inputs_ok E Pa Sa topo = true -> PeelProofs1.nonneg E f -> PeelProofs1.conserving E f ->
+  forall (feasible : nat -> bool) (lb : nat) (sts : list raw),
+  (forall k, feasible k = true <-> exists a, sat a (encode_kfd (e2e_inst V E s t f k))) ->
+  (forall i, (i < S (length E) - lb)%nat -> exists x, nth_error sts i = Some x /\
+             status_of x = if feasible (lb + i)%nat then Optimal else Infeasible) ->
+  valid_lb V E s t f lb ->
+  exists kopt,
+    so_res (mpc_solve true lb (S (length E)) sts) = Solved kopt /\
+    (exists P w, decomposition (e2e_inst V E s t f kopt) P w) /\
+    (forall k, (k < kopt)%nat -> ~ exists P w, decomposition (e2e_inst V E s t f k) P w).
+Proof. exact minflowdecomp_from_any_valid_lower_bound. Qed.
+Print Assumptions C05_minflowdecomp_returns_the_minimum_from_any_valid_lower_bound.
+
+Theorem C05_log2_bound_is_valid :
+  forall (V : list node) (E : list edge) (s t : node) (f : edge -> Z),
+  (forall e, In e E -> In (fst e) V /\ In (snd e) V) -> ~ In s V -> ~ In t V ->
+  forall L : list edge, incl L E -> ForallOrdPairs (fun e e' => f e <> f e') L -> valid_lb V E s t f (Nat.log2_up (length L)).
+Proof. exact log2_bound_is_valid. Qed.
+Print Assumptions C05_log2_bound_is_valid.
+
+Theorem C05_scanning_bound_is_valid :
+  forall (V : list node) (E : list edge) (s t : node) (f : edge -> Z) (topo : list node) (left right lbH : nat),
+  dag_with_order V E s t topo ->
+  (forall j, (j < lbH)%nat -> ~ exists PH wH,
+      decomposition (e2e_inst (fst (window_subgraph topo left right E)) (snd (window_subgraph topo left right E)) s t f j) PH wH) ->
+  valid_lb V E s t f lbH.
+Proof. exact scanning_bound_is_valid. Qed.
+Print Assumptions C05_scanning_bound_is_valid.
+
+Theorem C05_valid_bounds_combine : forall (V : list node) (E : list edge) (s t : node) (f : edge -> Z), s <> t -> forall (a b : nat),
+  valid_lb V E s t f a -> valid_lb V E s t f b -> valid_lb V E s t f (Nat.max a b).
+Proof. exact valid_lb_max. Qed.
+Print Assumptions C05_valid_bounds_combine.
+
 (* non-vacuity: s -> a, a -> b (2), a -> c (3), b -> t, c -> t with two paths of weights 2 and 3 meets every premise; the source
    cut is {(a,b),(a,c)}, the source flow 5 and the theorem yields a generating multiset of at most 2 elements for {2,3} *)
 Example C05_lower_bounds_nonvacuous :
